@@ -87,6 +87,18 @@ class ModuleRef:
         self.name = name
 
 
+class KeysView(list):
+    """dict.keys(): iterates in insertion order, compares like a set (python semantics)"""
+
+    def __eq__(self, o):
+        return set(self) == set(o)
+
+    def __ne__(self, o):
+        return not self.__eq__(o)
+
+    __hash__ = None
+
+
 class AtProxy:
     def __init__(self, arr, idx=None):
         self.arr, self.idx = arr, idx
@@ -607,6 +619,8 @@ class Executor:
             rec, after = v[1]
             cls, node = self.find_method(rec.cls, attr, after=after)
             return Closure(node, {}, self, self_val=rec, cls=cls)
+        if v is None:
+            raise PyRaise("AttributeError", f"'NoneType' object has no attribute '{attr}'")
         raise Unsupported(f"attribute {attr} of {type(v).__name__}")
 
     def e_Subscript(self, e, env, pc):
@@ -706,6 +720,21 @@ class Executor:
 
     def e_BoolOp(self, e, env, pc):
         vals, p = [], pc
+        # python semantics `a or b` / `a and b` return an operand: exact when every operand's truth value is concrete
+        last = None
+        allc = True
+        for x in e.values:
+            v, p2 = self.eval1(x, env, p)
+            t = self.truth(v)
+            if not isinstance(t, bool):
+                allc = False
+                break
+            last = v
+            if (isinstance(e.op, ast.Or) and t) or (isinstance(e.op, ast.And) and not t):
+                return [(v, p2)]
+        if allc:
+            return [(last, p)]
+        vals, p = [], pc
         for x in e.values:
             v, p = self.eval1(x, env, p)
             t = self.truth(v)
@@ -748,6 +777,12 @@ class Executor:
             if isinstance(op, ast.Eq):
                 return SArr(arr.shape, lambda *i: arr.elem(*i) == other, "bool")
             raise Unsupported("array comparison")
+        if isinstance(a, KeysView) or isinstance(b, KeysView):
+            r = set(a) == set(b)
+            if isinstance(op, ast.Eq):
+                return r
+            if isinstance(op, ast.NotEq):
+                return not r
         if isinstance(a, tuple) and isinstance(b, tuple) and isinstance(op, (ast.Eq, ast.NotEq)):
             if len(a) != len(b):
                 r = False
@@ -860,7 +895,7 @@ class Executor:
             if tag == "at.set":
                 return [(arr_at_set(self, obj, args[0], pc), pc)]
             if tag == "dict.keys":
-                return [(list(obj.keys()), pc)]
+                return [(KeysView(obj.keys()), pc)]
             if tag == "dict.values":
                 return [(list(obj.values()), pc)]
             if tag == "dict.items":
@@ -1391,7 +1426,12 @@ def lib_take(ex, args, kwargs, pc):
     if axis != 0:
         raise Unsupported("take along axis != 0")
     ex.takes = getattr(ex, "takes", []) + [(a, idx)]
-    return SArr((idx.shape[0],) + tuple(a.shape[1:]), lambda i, *r: a.elem(idx.elem(i), *r), a.dtype)
+    nanv = fresh_real("nan_fill")        # jnp.take's default mode fills out-of-range rows with NaN: an unconstrained value
+
+    def elem(i, *r):
+        j = zint(idx.elem(i))
+        return ite(z3.And(j >= 0, j < zint(a.shape[0])), a.elem(j, *r), nanv)
+    return SArr((idx.shape[0],) + tuple(a.shape[1:]), elem, a.dtype)
 
 
 def lib_tree_map(ex, args, kwargs, pc):
@@ -1434,6 +1474,13 @@ def lib_tree_transpose(ex, args, kwargs, pc):
         n = len(inner[1]) if isinstance(inner, tuple) and inner[0] == "treedef" else len(next(iter(tree.values())))
         return [{k: v[i] for k, v in tree.items()} for i in range(n)]
     raise Unsupported("tree_transpose of this shape")
+
+
+def lib_divmod(ex, args, kwargs, pc):
+    a, d = args
+    if isinstance(a, SArr):
+        return (SArr(a.shape, lambda *i: zint(a.elem(*i)) / zint(d), "int"), SArr(a.shape, lambda *i: zint(a.elem(*i)) % zint(d), "int"))
+    return (zint(a) / zint(d), zint(a) % zint(d))
 
 
 def lib_arange(ex, args, kwargs, pc):
@@ -1545,6 +1592,7 @@ LIB = {
     "jnp.int32": "int32",
     "jnp.take": lib_take,
     "jnp.arange": lib_arange,
+    "jnp.divmod": lib_divmod,
     "jnp.count_nonzero": lib_count_nonzero,
     "jnp.linspace": lib_linspace,
     "jnp.hstack": lib_hstack,
